@@ -201,6 +201,19 @@ func c04CheckData(c *kit.Case, h *kit.XHistory, data []byte, info *kit.XRenderIn
 			c.Violationf(keyPrefix+"trailer", "%s\ntrailer /%s = %s, newest revision has %s", ctx(), k, g, kit.XCanon(w))
 		}
 	}
+	// entries which only older revisions had are gone
+	for _, rev := range h.Revs {
+		for k := range rev.Extra {
+			if _, has := extra[k]; has || k == "Info" || k == "ID" || k == "Encrypt" {
+				continue
+			}
+			if g := tr[pdf.Name(k)]; g != nil {
+				c.Violationf(keyPrefix+"trailer/entry-of-an-older-revision", "%s\ntrailer /%s = %s, but the newest revision's trailer has no such entry (an older one has)", ctx(), k, gen.Canon(g))
+			} else {
+				c.R.Count("dropped_trailer_entries_checked", 1)
+			}
+		}
+	}
 	c.R.Count("trailers_compared", 1)
 }
 
@@ -411,6 +424,10 @@ func TestVerifC04(t *testing.T) {
 		}
 		for ri := 0; ri < nr; ri++ {
 			rev := kit.XRev{Actions: map[uint32]kit.XAction{}, Kind: kinds[ri], Extra: kit.XDict{"XXVerifRev": int64(ri)}}
+			if c.Rng.Chance(1, 3) {
+				// an entry which some revisions have and others have not
+				rev.Extra["XXVerifSometimes"] = int64(100 + ri)
+			}
 			if ri == 0 {
 				rev.Actions[1] = kit.XAction{Value: c04Catalog(h, 2)}
 				rev.Actions[2] = kit.XAction{Value: c04Pages()}
